@@ -1,5 +1,5 @@
 // Overlay for src/key_transforms.rs
-use crate::keys::{mview, rview, MappingV, RepeatV};
+use crate::keys::{mview, rview, MappingV, RepeatV, mapping_ok, layout_ok, repeat_ok, repeatv_ok};
 use vstd::std_specs::hash::*;
 use crate::prelude_specs::*;
 // ---------- spec ----------
@@ -1342,11 +1342,6 @@ spec fn repeat_matches(r: Repeat, rr: ResultingRepeat) -> bool {
   }
 }
 
-// repeat parameters the event loop can turn into a Duration: non-negative milliseconds, no key twice in the chord
-pub open spec fn repeatv_ok(r: RepeatV) -> bool {
-  match r { RepeatV::Special { keys, delay_ms, interval_ms } => delay_ms >= 0 && interval_ms >= 0 && keys.no_duplicates(), _ => true }
-}
-pub open spec fn repeat_ok(r: Repeat) -> bool { repeatv_ok(rview(r)) }
 pub open spec fn rrepeat_ok(r: ResultingRepeat) -> bool {
   match r { ResultingRepeat::Repeating { keys, delay_ms, interval_ms } => delay_ms >= 0 && interval_ms >= 0 && keys@.no_duplicates(), _ => true }
 }
@@ -1359,14 +1354,6 @@ spec fn hl_ok(h: HashedLayout) -> bool {
 
 spec fn hm_ok(hm: Map<KeyCode, Vec<Mapping>>) -> bool {
   forall|k: KeyCode, j: int| hm.contains_key(k) && 0 <= j < hm[k]@.len() ==> gm_ok(#[trigger] hm[k]@[j])
-}
-
-pub open spec fn mapping_ok(m: Mapping) -> bool {
-  m.from@.len() >= 1 && m.from@.no_duplicates() && m.to@.no_duplicates() && repeat_ok(m.repeat)
-}
-
-pub open spec fn layout_ok(l: Layout) -> bool {
-  forall|i: int| 0 <= i < l.mappings@.len() ==> mapping_ok(#[trigger] l.mappings@[i])
 }
 
 //@ C14 | default: fn final_key
